@@ -142,10 +142,18 @@ def c02(ctx):
 def c10(ctx):
     n = scaled(100000 if ctx.tier == "thorough" else 5600)
     _seq_stage(ctx, "C10", n)
+    # concurrent part: after every olc_conc execution (all threads quiesced and gone, QSBR drained)
+    t = ctx.tier == "thorough"
+    ctx.stage("olc-concurrent", "olc_conc", "rel", worker_args(ctx.seed + 555, scaled(24000 if t else 1600), 16, ["--prop", "C10", "--explore", "60"]), timeout=3600)
+    ctx.stage("olc-concurrent-free", "olc_conc", "dbg-asan", worker_args(ctx.seed + 556, scaled(8000 if t else 320), 8, ["--prop", "C10", "--mode", "free", "--rounds", "30"]), timeout=3600, jobs=8)
+    ctx.floors = ctx.floors + [("growth_shrink_conservation_checks", 10000), ("operation_restarts", 1000)]
     ctx.rule = ("after every operation of C01-style histories (incl. failed/duplicate operations and clear): node counts per class, leaf count, memory use, "
                 "growth/shrink counters and prefix-split counter compared with what the path-compressed radix tree of the current key set (reference trie, "
                 "smallest fitting class per node) implies; bytes held from the allocator (allocate/free hooks) compared with reported memory use; nothing "
-                "held after destruction (hooks + LeakSanitizer). A comparison is distinct+non-trivial when the key-set hash is new and the tree has >= 1 inner node")
+                "held after destruction (hooks + LeakSanitizer). A comparison is distinct+non-trivial when the key-set hash is new and the tree has >= 1 inner node. "
+                "Concurrent part (olc_db): after every execution of the C03 programs under the serialized scheduler and in free-running rounds - all threads gone, QSBR "
+                "drained - node counts must equal the reference trie of the final key set, allocator bytes the reported memory, and the conservation identities "
+                "nodes[X] = grow[X] - shrink[X] - grow[larger] + shrink[larger] must hold (a counter that moves on an abandoned attempt breaks them)")
 
 
 # ------------------------------------------------------------- E2 lock_conc
